@@ -9,6 +9,57 @@ sys.path.insert(0, os.path.dirname(os.path.dirname(os.path.abspath(__file__))))
 from harness import common
 
 
+def supervise(pid, tier, seed, replay=None):
+    """run the check in a child process: native code of the implementation under test may crash the interpreter
+    (out-of-bounds writes behind boundscheck(False)); a crash is a behaviour of the implementation, so it is reported
+    as a violation -- with the request the harness had marked last -- instead of taking the check down with it"""
+    import json
+    import signal
+    import subprocess
+    crash = {getattr(signal, n) for n in ('SIGSEGV', 'SIGBUS', 'SIGABRT', 'SIGFPE', 'SIGILL')}
+    d = os.path.join(common.VERIF, '.locks')
+    os.makedirs(d, exist_ok=True)
+    mark = os.path.join(d, 'mark_%s_%d_%d' % (pid, seed, os.getpid()))
+    env = dict(os.environ, VERIF_CHILD='1', VERIF_MARKFILE=mark, VERIF_SEED=str(seed))
+
+    def die_with_parent():
+        try:
+            import ctypes
+            ctypes.CDLL('libc.so.6').prctl(1, signal.SIGKILL)
+        except Exception:
+            pass
+    sys.stdout.flush()
+    p = subprocess.Popen([sys.executable, '-B', os.path.abspath(__file__), pid, '--tier', tier] +
+                         (['--replay', replay] if replay else []), env=env, preexec_fn=die_with_parent)
+    for s in (signal.SIGTERM, signal.SIGINT):
+        signal.signal(s, lambda sig, frm: p.send_signal(sig))
+    rc = p.wait()
+    last, tb = '', ''
+    for suffix in ('', '.tb'):
+        try:
+            txt = open(mark + suffix, errors='replace').read()
+            os.remove(mark + suffix)
+        except OSError:
+            txt = ''
+        if suffix:
+            tb = txt
+        else:
+            last = txt.rstrip('\x00 \n')
+    if rc >= 0:
+        return rc
+    if -rc not in crash:
+        print('INFRASTRUCTURE-ERROR %s: check process killed by signal %d' % (pid, -rc))
+        return 2
+    name = signal.Signals(-rc).name
+    ctx = common.Ctx(pid, tier, seed)
+    ctx.rule = 'the check process died with %s inside native code of the implementation; nothing else of this run is recorded' % name
+    ctx.obligation('implementation answers every request without crashing the interpreter', False, name)
+    ctx.violation('impl-crash:' + name,
+                  'the implementation crashed the interpreter (%s) while answering: %s' % (name, last[:1500] or '(no request marked)'),
+                  {'signal': name, 'last_marked_request': last, 'python_traceback_at_crash': tb[-6000:]}, bool(last))
+    return ctx.finish()
+
+
 def main():
     ap = argparse.ArgumentParser()
     ap.add_argument('prop')
@@ -18,7 +69,8 @@ def main():
     pid = a.prop.upper()
     seed = int(os.environ.get('VERIF_SEED', '0'))
     os.environ.pop('PYIGA_VERIF', None)
-    if a.replay:
+    child = os.environ.get('VERIF_CHILD') == '1'
+    if a.replay and not child:
         # a replay file names the seed, tier and the failing input / stream; the check is deterministic in
         # (seed, tier), so replaying = showing the recorded input and re-running the check with that seed
         import json
@@ -32,6 +84,10 @@ def main():
             print('  recorded input: %s' % json.dumps(rep.get('replay'), default=str)[:4000])
         except Exception as e:
             print('cannot read replay file %s: %s' % (a.replay, e))
+    if not child:
+        sys.exit(supervise(pid, a.tier, seed, a.replay))
+    import faulthandler
+    faulthandler.enable(file=open(os.environ['VERIF_MARKFILE'] + '.tb', 'w'), all_threads=False)
     ctx = common.Ctx(pid, a.tier, seed)
     ctx.replay_file = a.replay
     try:
